@@ -18,6 +18,9 @@ DamageOps == <<
   [name |-> "truncated-x-escape", kind |-> "inline", frag |-> <<"\"", "a", "\\", "x", "4", "\"">>],
   [name |-> "truncated-u-escape", kind |-> "inline", frag |-> <<"\"", "a", "\\", "u", "1", "2", "\"">>],
   [name |-> "nonhex-escape", kind |-> "inline", frag |-> <<"\"", "a", "\\", "x", "Z", "Z", "\"">>],
+  [name |-> "surrogate-escape", kind |-> "inline", frag |-> <<"\"", "\\", "u", "D", "8", "0", "0", "\"">>],
+  [name |-> "surrogate-escape-low", kind |-> "inline", frag |-> <<"\"", "a", "\\", "U", "0", "0", "0", "0", "d", "f", "f", "f", "\"">>],
+  [name |-> "escape-beyond-unicode", kind |-> "inline", frag |-> <<"\"", "\\", "U", "0", "0", "1", "1", "0", "0", "0", "0", "\"">>],
   [name |-> "alias-without-anchor", kind |-> "inline", frag |-> <<"*", "n", "o", "p", "e">>],
   [name |-> "undeclared-handle", kind |-> "inline", frag |-> <<"!", "z", "z", "!", "t", " ", "v">>],
   [name |-> "second-root-same-line", kind |-> "inline", frag |-> <<"\"", "a", "\"", " ", "\"", "b", "\"">>],
